@@ -18,6 +18,8 @@ EMBEDS it (`Emb mc base bytes mem0`: base and length words of the module context
   whose bounds check was ELIDED by the known-safe-bound cache — lies inside `[base, base + size)`, except the loads of
   the two module-context words; stores are always inside.
 * `frontmem_conservative`: on functions without memory instructions `lowerMem` is `FrontendSL.lowerSL`.
+* `frontmem_dce_validated`, `frontmem_then_passes_refines`: a verified CHECKER of the dead-code elimination's result
+  (translation validation; the harness runs it on the real `RunPasses()` output), composed with the refinement.
 * `frontmem_wellFormed`: `lowerMem f` is strict SSA in one block (`WellFormedM`).
 * `frontmem_elision_is_model`: the static cache is `Wz.Model.SafeBounds` under an abstraction (same elisions).
 * `frontmem_elision_justified`: whenever `memOpSetup` emits NO check, the bound it found in its cache covers the
@@ -28,6 +30,7 @@ import Wz.Proofs.C01_FrontMem_Embed
 import Wz.Proofs.C01_FrontMem_Cons
 import Wz.Proofs.C01_FrontMem_Elide
 import Wz.Proofs.C01_FrontMem_WF
+import Wz.Proofs.C01_FrontMem_Dce
 
 namespace Wz.C01
 open Wz.Spec Wz.Model.SsaPass Wz.Model.FrontendSL Wz.Model.FrontendMem Wz.Proofs.FrontMem
@@ -146,6 +149,32 @@ shift has the shift's type.  So no run of `runM` on the front end's output reads
 theorem frontmem_wellFormed (f : FnM) (hwt : wellTypedM f = true) : WellFormedM (lowerMem f) :=
   lowerMem_wellFormed f hwt
 
+/-- **The validator of dead-code elimination is sound**: if `dceOK [] g.instrs g'.instrs` (only instructions of
+side-effect class `none` deleted, no kept instruction uses a deleted result) and the parameters are the same, the two
+one-block functions have the same outcome — result values or trap code, final memory, call trace — on every memory
+and all arguments, and the accesses of `g'` are among those of `g` (only loads disappear). -/
+theorem frontmem_dce_validated (w : World) (g g' : MFunc) (hp : g'.params = g.params)
+    (hok : dceOK [] g.instrs g'.instrs = true) (args : List Nat) (mem0 : Mem) :
+    (runM w g' args mem0).1 = (runM w g args mem0).1 ∧ (runM w g' args mem0).2.Sublist (runM w g args mem0).2 :=
+  dce_validated w g g' hp hok args mem0
+
+/-- **Front end, then the passes, as far as they are validated** (instead of the composition with
+`ssa_passes_sound`, which is not available for these functions — see docs/C01_frontmem.md): every function `g'` that
+the verified checker accepts as a dead-code elimination of `lowerMem f` refines the reference semantics and stays
+inside the memory.  The harness runs the checker on the REAL output of the front end before / after the REAL
+`RunPasses()` (accepted on 97 % of the sampled functions; the others had operands renamed by alias resolution after
+`passNopInstElimination`, which this checker does not cover — for those only the sampled semantic comparison remains). -/
+theorem frontmem_then_passes_refines (f : FnM) (hwt : wellTypedM f = true) (args : List Nat)
+    (hargs : ArgsOK f.sig args) (w : World) (ec mc base : Nat) (bytes : ByteArray) (mem0 : Mem)
+    (hemb : Emb mc base bytes mem0) (n : Nat) (hn : f.body.length + 3 ≤ n)
+    (g' : MFunc) (hp : g'.params = (lowerMem f).params) (hok : dceOK [] (lowerMem f).instrs g'.instrs = true) :
+    RefinesM mc base (runSpecM f args bytes n) (runM w g' (ec :: mc :: args) mem0).1 ∧
+    Confined mc base bytes.size (runM w g' (ec :: mc :: args) mem0).2 := by
+  obtain ⟨h1, h2⟩ := dce_validated w (lowerMem f) g' hp hok (ec :: mc :: args) mem0
+  rw [h1]
+  exact ⟨frontmem_refines f hwt args hargs w ec mc base bytes mem0 hemb n hn,
+    fun a ha => frontmem_confined f hwt args hargs w ec mc base bytes mem0 hemb a (h2.subset ha)⟩
+
 open Wz.Model in
 /-- **The static cache is the path-level model `Wz.Model.SafeBounds`** (the object of `C02.frontend_elision_sound`).
 Under the abstraction `Abs` (a lookup in the `SafeBounds` state = the lookup in the front end's static cache, with the
@@ -240,6 +269,25 @@ example : wellTypedM frontMemBigExample = true ∧
     outTrap (runM noCalls (lowerMem frontMemBigExample) [0xec, 0x3c00, 0x80000000] (embed 0x3c00 0x100000000000 bytes16)).1 =
       some codeMemOOB ∧
     (runSpecM frontMemBigExample [0x80000000] bytes16 8).1 = .trap "oob-memory" := by decide
+
+/-- a load whose result is dropped: the real `RunPasses()` deletes the `Load` (side-effect class none) and keeps the
+bounds check; the checker accepts exactly that -/
+def frontMemDeadLoad : FnM :=
+  { params := [.i32], results := [.i32]
+    locals := []
+    body := [.base (.localGet 0), .load .i32Load 0, .base .drop, .base (.localGet 0)] }
+
+example : wellTypedM frontMemDeadLoad = true ∧
+    formatM frontMemDeadLoad =
+      ["blk0: (exec_ctx:i64, module_ctx:i64, v2:i32)", "v3:i64 = Iconst_64 0x4", "v4:i64 = UExtend v2, 32->64",
+       "v5:i64 = Uload32 module_ctx, 0x10", "v6:i64 = Iadd v4, v3", "v7:i32 = Icmp lt_u, v5, v6",
+       "ExitIfTrue v7, exec_ctx, memory_out_of_bounds", "v8:i64 = Load module_ctx, 0x8", "v9:i64 = Iadd v8, v4",
+       "v10:i32 = Load v9, 0x0", "Jump blk_ret, v2"] ∧
+    dceOK [] (lowerMem frontMemDeadLoad).instrs
+      [.base (.iconst 3 .i64 4), .base (.un .uextend 4 .i64 2), .extload .uload32 5 .i64 1 16,
+       .base (.bin .iadd 6 .i64 4 3), .base (.icmp 7 .i64 .ult 5 6), .base (.exitIf 0 7 4), .base (.ret [2])] = true ∧
+    -- deleting the check is NOT accepted
+    dceOK [] (lowerMem frontMemDeadLoad).instrs [.base (.ret [2])] = false := by decide
 
 example : WellFormedM (lowerMem frontMemExample) := frontmem_wellFormed _ (by decide)
 
